@@ -416,6 +416,12 @@ def mark_loop(ctx, rule):
                     for b in e.paths:
                         walk(b.events, loops + [e], conds + [c for c in b.conds])
         walk(p.events, [], [])
+        from ..lib import read_marker
+        if not marks and read_marker(ctx, p):
+            # every call on the path was followed to the end and none of them marks a position: on this path an update leaves the holdings at their old prices
+            ctx.violation(rule, 'update marks every held asset, whatever the time of the update [%s]' % cond_str(p)[:80], fn.site(),
+                          'READ: on this path update returns without a single call of update_market_value_of_asset', key='%s|no-mark' % rule)
+            continue
         if len(marks) != 1:
             # marks made indirectly (deferred callables, zipped work lists, ...) are outside what this rule reads; nothing is claimed either way
             ctx.undecided(rule, 'update marks positions at one call site inside the portfolio x position loops [%s]' % cond_str(p)[:80],
